@@ -628,7 +628,7 @@ def rule_tag_plumbing(fm, rep, rid='R2'):
             fs = dict(list(rts)[0][3])
             r0 = list(rts)[0]
             vtags, vcid, vpre = (get_path(r0, client_field_path(cad, r_, SCB) or ('?',)) for r_ in ('tags', 'container_id', 'prefix'))
-            ok = term_callee_is(vtags, 'alloc::vec::Vec::new') and vcid[0] == 'adt' and vcid[2] == 'None'
+            ok = is_empty_vec(vtags) and vcid[0] == 'adt' and vcid[2] == 'None'
         rep.ob('R5', 'no-defaults-by-default', ok, nb.where(), 'a new builder has no default tags and no container id')
     # ---- how the default tags travel from the client field into the per-call formatter (by role, not by name)
     from .. import symb
@@ -1092,6 +1092,11 @@ def _prefix_stage(cad, body0, out_path, is_input):
             d = norm(T.switch_facts(bi)[0])
             if term_callee_is(d, 'core::str::is_empty', 'alloc::string::String::is_empty') and is_input(d[2][0]):
                 sw.append(bi)
+            elif d[0] == 'bin' and d[1] == 'Eq':
+                # `prefix.len() == 0` (either way round)
+                a_, c_ = (d[2], d[3]) if d[3][0] == 'const' else (d[3], d[2])
+                if c_[0] == 'const' and str(c_[2]) == '0' and term_callee_is(a_, 'core::str::len', 'alloc::string::String::len') and is_input(a_[2][0]):
+                    sw.append(bi)
     if len(sw) != 1:
         return None, 'the prefix normalisation has an unexpected shape', b
     dt, edges = T.switch_facts(sw[0])
